@@ -213,33 +213,56 @@ fn run_{i}() {{
             l = m.depth,
         );
     }
-    s += "fn main() {\n    std::panic::set_hook(Box::new(|_| {}));\n    if std::env::args().any(|a| a == \"--trace\") { unsafe { TRACE = true; } }\n    let only: Option<usize> = std::env::args().skip_while(|a| a != \"--only\").nth(1).and_then(|s| s.parse().ok());\n";
+    s += "fn main() {\n    std::panic::set_hook(Box::new(|_| {}));\n    if std::env::args().any(|a| a == \"--trace\") { unsafe { TRACE = true; } }\n    let skip: Vec<usize> = std::env::args().skip_while(|a| a != \"--skip\").skip(1).filter_map(|s| s.parse().ok()).collect();\n";
     for &i in ids {
         if !bad[i] {
-            s += &format!("    if only.is_none() || only == Some({i}) {{ run_{i}(); }}\n");
+            s += &format!("    if !skip.contains(&{i}) {{ run_{i}(); }}\n");
         }
     }
     s += "}\n";
     s
 }
 
+/// Address-space limit for every compiled batch binary (a looping emitted parser must not eat the machine).
+const CHILD_VMEM_KB: u64 = 3 * 1024 * 1024;
+/// Cap on the output read from a batch binary.
+const CHILD_STDOUT_CAP: usize = 1 << 30;
+
+/// Runs a compiled batch binary under an address-space limit. Returns (stdout, failed), where failed means:
+/// no clean exit within the time limit (time-out, abort, allocation failure, signal).
 fn run_with_timeout(bin: &Path, args: &[&str], limit_s: u64) -> (String, bool) {
-    let mut child = match Command::new(bin).args(args).stdout(Stdio::piped()).stderr(Stdio::null()).spawn() {
+    let script = format!("ulimit -v {CHILD_VMEM_KB}; exec \"$0\" \"$@\"");
+    let mut child = match Command::new("sh").arg("-c").arg(&script).arg(bin).args(args).stdout(Stdio::piped()).stderr(Stdio::null()).spawn() {
         Ok(c) => c,
         Err(e) => machinery_error(format!("cannot run {}: {e}", bin.display())),
     };
     let mut stdout = child.stdout.take().unwrap();
     let reader = std::thread::spawn(move || {
-        let mut s = String::new();
         use std::io::Read;
-        let _ = stdout.read_to_string(&mut s);
-        s
+        let mut buf: Vec<u8> = vec![];
+        let mut chunk = vec![0u8; 1 << 16];
+        loop {
+            match stdout.read(&mut chunk) {
+                Ok(0) | Err(_) => break,
+                Ok(n) => {
+                    if buf.len() < CHILD_STDOUT_CAP {
+                        buf.extend_from_slice(&chunk[..n]);
+                    }
+                }
+            }
+        }
+        String::from_utf8_lossy(&buf).into_owned()
     });
     let t0 = std::time::Instant::now();
     let mut timed_out = false;
     loop {
         match child.try_wait() {
-            Ok(Some(_)) => break,
+            Ok(Some(st)) => {
+                if !st.success() {
+                    timed_out = true; // abnormal end (abort on allocation failure, signal): treated like a hang
+                }
+                break;
+            }
             Ok(None) => {
                 if t0.elapsed().as_secs() > limit_s {
                     let _ = child.kill();
@@ -316,30 +339,47 @@ pub fn run_real(mods: &[RealModule], tag: &str) -> RealResults {
         }
     }
     let t1 = std::time::Instant::now();
-    let outputs: Vec<(String, Option<(usize, Vec<u8>, u8)>)> = (0..nb)
+    let outputs: Vec<(String, Vec<(usize, Vec<u8>, u8)>)> = (0..nb)
         .into_par_iter()
         .map(|b| {
             let bin = scratch.dir.join(format!("main{b}"));
-            let (out, timed_out) = run_with_timeout(&bin, &[], 300);
-            if !timed_out {
-                return (out, None);
+            let (out, failed) = run_with_timeout(&bin, &[], 300);
+            if !failed {
+                return (out, vec![]);
             }
-            // find the culprit: rerun with tracing, the last T line names it
-            let (trace, _) = run_with_timeout(&bin, &["--trace"], 300);
-            let last = trace.lines().rev().find(|l| l.starts_with("T|")).map(|l| l.to_string());
-            let hang = last.and_then(|l| {
-                let p: Vec<&str> = l.split('|').collect();
-                Some((p.get(1)?.parse::<usize>().ok()?, p.get(2)?.bytes().map(|c| c - b'a').collect::<Vec<u8>>(), p.get(3)?.parse::<u8>().ok()?))
-            });
-            (trace, hang)
+            // A module made the batch hang, abort or exhaust its memory limit: find it with tracing (the last
+            // T line names it), then run the batch again without it; repeat for further culprits.
+            let mut culprits: Vec<(usize, Vec<u8>, u8)> = vec![];
+            let mut last_out = String::new();
+            for _round in 0..12 {
+                let mut args: Vec<String> = vec!["--trace".into(), "--skip".into()];
+                args.extend(culprits.iter().map(|c| c.0.to_string()));
+                let argrefs: Vec<&str> = args.iter().map(|s| s.as_str()).collect();
+                let (trace, failed) = run_with_timeout(&bin, &argrefs, 300);
+                if !failed {
+                    last_out = trace;
+                    break;
+                }
+                let last = trace.lines().rev().find(|l| l.starts_with("T|")).map(|l| l.to_string());
+                let hang = last.and_then(|l| {
+                    let p: Vec<&str> = l.split('|').collect();
+                    Some((p.get(1)?.parse::<usize>().ok()?, p.get(2)?.bytes().map(|c| c - b'a').collect::<Vec<u8>>(), p.get(3)?.parse::<u8>().ok()?))
+                });
+                match hang {
+                    Some(h) if !culprits.iter().any(|c| c.0 == h.0) => culprits.push(h),
+                    _ => break,
+                }
+                last_out = trace;
+            }
+            (last_out, culprits)
         })
         .collect();
     let run_s = t1.elapsed().as_secs_f64();
     let mut obs: Vec<HashMap<(Vec<u8>, u8), Obs>> = (0..n).map(|_| HashMap::new()).collect();
     let mut hangs: Vec<Option<(Vec<u8>, u8)>> = vec![None; n];
     let mut runs = 0u64;
-    for (out, hang) in outputs {
-        if let Some((i, w, m)) = hang {
+    for (out, culprits) in outputs {
+        for (i, w, m) in culprits {
             if i < n {
                 hangs[i] = Some((w, m));
             }
